@@ -163,7 +163,7 @@ def der_lax(b: bytes):
     return (0, 0) if overflow else (out[0], out[1])
 
 
-def check_ecdsa(sig: bytes, key: bytes, code: bytes, sv: str, tx, amount: int) -> bool:
+def check_ecdsa(sig: bytes, key: bytes, code: bytes, sv: str, tx, amount: int, i: int = 0) -> bool:
     """GenericTransactionSignatureChecker::CheckECDSASignature, from sig_hash + dsa (never the engine)."""
     want = {2: 33, 3: 33, 4: 65, 6: 65, 7: 65}.get(key[0], 0) if key else 0
     if want == 0 or len(key) != want or not sig:
@@ -176,7 +176,7 @@ def check_ecdsa(sig: bytes, key: bytes, code: bytes, sv: str, tx, amount: int) -
         q = point_from_octets(key, hybrid=True)
     except BTClibValueError:
         return False
-    h = sig_hash.legacy(code, tx, 0, ht) if sv == "base" else sig_hash.segwit_v0(code, tx, 0, ht, amount)
+    h = sig_hash.legacy(code, tx, i, ht) if sv == "base" else sig_hash.segwit_v0(code, tx, i, ht, amount)
     r, s = rs
     try:
         sg = dsa.Sig(r, s if s <= N // 2 else N - s)
@@ -185,7 +185,7 @@ def check_ecdsa(sig: bytes, key: bytes, code: bytes, sv: str, tx, amount: int) -
     return bool(dsa.verify_(h, q, sg))
 
 
-def check_schnorr(sig: bytes, key: bytes, sv: str, pos: int, tx, prevouts, annex: bytes, leaf_script):
+def check_schnorr(sig: bytes, key: bytes, sv: str, pos: int, tx, prevouts, annex: bytes, leaf_script, i: int = 0):
     """CheckSchnorrSignature: '1' or the script error name"""
     if len(sig) not in (64, 65):
         return "SCHNORR_SIG_SIZE"
@@ -197,13 +197,13 @@ def check_schnorr(sig: bytes, key: bytes, sv: str, pos: int, tx, prevouts, annex
             return "SCHNORR_SIG_HASHTYPE"
     if not (ht <= 3 or 0x81 <= ht <= 0x83):
         return "SCHNORR_SIG_HASHTYPE"
-    if ht & 3 == 3 and len(tx.vout) <= 0:
+    if ht & 3 == 3 and len(tx.vout) <= i:
         return "SCHNORR_SIG_HASHTYPE"
     if sv == "taproot":
-        h = sig_hash.taproot(tx, 0, prevouts, ht, 0, annex, b"")
+        h = sig_hash.taproot(tx, i, prevouts, ht, 0, annex, b"")
     else:
         leaf = tagged_hash(b"TapLeaf", b"\xc0" + G_varint(len(leaf_script)) + leaf_script)
-        h = sig_hash.taproot(tx, 0, prevouts, ht, 1, annex, leaf + b"\x00" + pos.to_bytes(4, "little"))
+        h = sig_hash.taproot(tx, i, prevouts, ht, 1, annex, leaf + b"\x00" + pos.to_bytes(4, "little"))
     return "1" if ssa.verify_(h, key, sig) else "SCHNORR_SIG"
 
 
@@ -257,18 +257,19 @@ def answer(line: str, query: str, vec=None) -> str:
     _op, _flags, ss, spk, wit, lt, seq, ver, amount, _o = t
     witness = unhexlist(wit)
     tx, prevouts = mk_tx(unhx(ss), witness, int(lt), int(seq), int(ver), int(amount), unhx(spk))
+    idx = 0
     if vec is not None:
-        tx, prevouts = vec["tx"], vec["prevouts"]
+        tx, prevouts, idx = vec["tx"], vec["prevouts"], vec.get("i", 0)
     q = query.split(":")
     if q[0] == "e":
-        v = "1" if check_ecdsa(unhx(q[1]), unhx(q[2]), unhx(q[3]), q[4], tx, int(amount)) else "0"
+        v = "1" if check_ecdsa(unhx(q[1]), unhx(q[2]), unhx(q[3]), q[4], tx, int(amount), idx) else "0"
     elif q[0] == "s":
         st = list(witness)
         annex = b""
         if len(st) >= 2 and st[-1][:1] == b"\x50":
             annex = st.pop()
         leaf_script = st[-2] if len(st) >= 2 else b""
-        v = check_schnorr(unhx(q[1]), unhx(q[2]), q[3], int(q[4]), tx, prevouts, annex, leaf_script)
+        v = check_schnorr(unhx(q[1]), unhx(q[2]), q[3], int(q[4]), tx, prevouts, annex, leaf_script, idx)
     elif q[0] == "c":
         v = "1" if check_commitment(unhx(q[1]), unhx(q[2]), unhx(q[3])) else "0"
     else:
@@ -369,6 +370,53 @@ def core_script_vectors():
         line = f"verifyx {flags} {hx(ss)} {hx(spk)} {hexlist(stack)} 0 4294967295 1 {amount} ask"
         out.append({"index": index, "line": line, "expect": x[i + 3], "comment": x[i + 4] if len(x) > i + 4 else "",
                     "tx": spend, "prevouts": [credit.vout[0]], "flags": flags})
+    return out
+
+
+def core_tx_vectors():
+    """Core's tx_valid.json / tx_invalid.json: one op line per input.  A valid vector holds under every flag but the
+    ones it lists; an invalid one fails under the flags it lists (BADTX = CheckTransaction, not a script matter)."""
+    out = []
+    for fname, valid in (("tx_valid.json", True), ("tx_invalid.json", False)):
+        path = "/repo/tests/script_engine/_data/" + fname
+        if not os.path.exists(path):
+            raise common.HarnessError(f"Core's {fname} is not vendored under /repo/tests")
+        for index, x in enumerate(json.load(open(path))):
+            if len(x) == 1 and isinstance(x[0], str):
+                continue
+            if x[2] == "BADTX":
+                continue
+            try:
+                tx = Tx.parse(x[1], check_validity=False)
+            except Exception:  # noqa: BLE001
+                try:
+                    tx = Tx.parse(x[1])
+                except Exception:  # noqa: BLE001
+                    continue
+            listed = [] if x[2] in ("", "NONE") else x[2].split(",")
+            names = [n for n in ALL_NAMES if n not in listed] if valid else listed
+            flags = ",".join(names) if names else "-"
+            pmap = {}
+            for p in x[0]:
+                pmap[(p[0].lower(), p[1] & 0xFFFFFFFF)] = (parse_core_script(p[2]), p[3] if len(p) > 3 else 0)
+            prevouts = []
+            ok = True
+            for vin in tx.vin:
+                h = vin.prev_out.tx_id
+                h = h.hex() if isinstance(h, (bytes, bytearray)) else str(h)
+                ent = pmap.get((h, vin.prev_out.vout)) or pmap.get((bytes.fromhex(h)[::-1].hex(), vin.prev_out.vout))
+                if ent is None:
+                    ok = False
+                    break
+                prevouts.append(TxOut(ent[1], ScriptPubKey(ent[0], check_validity=False), check_validity=False))
+            if not ok:
+                continue
+            for i, vin in enumerate(tx.vin):
+                spk = prevouts[i].script_pub_key.script
+                line = (f"verify {flags} {hx(vin.script_sig)} {hx(spk)} {hexlist(list(vin.script_witness.stack))} "
+                        f"{tx.lock_time} {vin.sequence} {tx.version} {prevouts[i].value} ask")
+                out.append({"file": fname, "index": index, "i": i, "valid": valid, "line": line, "tx": tx,
+                            "prevouts": prevouts, "flags": flags})
     return out
 
 
@@ -537,6 +585,20 @@ def classify_named(ln, io, mo):
         return "schnorr_sig_size_accepted"
     what = "accepts" if accepted else "refuses"
     return f"{t[0]}:{what}_where_core_says_{core}"
+
+
+def classify_vector(ln, io, mo, vec):
+    """classification of a multi-input vector: the generic classes are recognised on the single-input rebuild only when
+    that rebuild shows the same disagreement; otherwise the key names the vector"""
+    t = ln.split(" ")
+    try:
+        if _impl(t) == io and resolve_model(" ".join(t[:-1] + ["ask"])) == mo:
+            return classify_named(ln, io, mo)
+    except Exception:  # noqa: BLE001
+        pass
+    named = _driver(" ".join([t[0] + "x"] + t[1:]))
+    core = named.split(" ")[1] if named.startswith("err ") else "OK"
+    return f"tx_vector:{vec['file']}#{vec['index']}:{'accepts' if io == 'ok' else 'refuses'}_where_core_says_{core}"
 
 
 def classify_eval(ln, io, mo):
